@@ -65,6 +65,9 @@ PATCHES_ADDR = {
 }
 
 
+PRISTINE = {}
+
+
 class Cfg:
     addrs = [A, C]
     max_recs = 2
@@ -124,6 +127,8 @@ class StorageSystem(explore.System):
         d = self.cfg.patches.get(name)
         if d is None:
             d = self.cfg.addr_patches[name]
+        # a shallow copy: mutable *values* are the application's own objects (a defaults constant patched into several repeaters)
+        self._pristine = copy.deepcopy(PRISTINE.setdefault(id(d), copy.deepcopy(d)))
         return dict(d)
 
     def _snapshot_impl(self):
@@ -141,9 +146,9 @@ class StorageSystem(explore.System):
             if key in self.builtin:
                 if key == "address_in" and m[key] != v:
                     self.last_choice = {}
-                m[key] = v
+                m[key] = copy.deepcopy(v)
             else:
-                m["attrs"][key] = v
+                m["attrs"][key] = copy.deepcopy(v)  # the model keeps values, not the caller's objects
 
     def _index_of(self, obj):
         for i, r in enumerate(self.recs):
@@ -164,6 +169,7 @@ class StorageSystem(explore.System):
         raised = None
         ret = None
         given = patch = None
+        self._pristine = None
         undefined = False  # call outside what the statement defines: may raise, must not change state
         expect = ("any",)
         try:
@@ -223,7 +229,12 @@ class StorageSystem(explore.System):
         except Exception as e:  # noqa: BLE001
             raised = e
         self.uid = SEAMS.uid
-        if given is not None and given != patch:
+        if given is not None and self._pristine is not None and (given != self._pristine or patch != self._pristine):
+            viol.append(("callers_patch_values_modified", {"event": list(ev), "passed": repr(self._pristine), "left": repr(given)}))
+            # repair the shared constant so that one defect is reported once, not for every later use of the same patch
+            for k_ in list(patch):
+                patch[k_] = copy.deepcopy(self._pristine.get(k_))
+        elif given is not None and given != patch:
             # the caller owns the dict it passes (a provisioning table re-applied on every datagram): the library must not consume it
             viol.append(("callers_patch_dict_modified", {"event": list(ev), "passed": repr(patch), "left": repr(given)}))
 
@@ -393,6 +404,12 @@ def SUBCLASS_SYSTEM():
                        builtin=BUILTIN + ("site", "hw_rev"), storage_factory=SiteStorage)
 
 
+def MUTABLE_VALUES_SYSTEM():
+    defaults = {"a": 1}
+    patches = {"none": {}, "cfg_defaults": {"custom": defaults}, "cfg_other": {"custom": {"b": 2}}, "cfg_list": {"custom": [1, 2]}, "callsign": {"callsign": "x"}}
+    return make_system([A, B], patches, match_attrs=(("callsign", "x"),))
+
+
 def EDGE_SYSTEM():
     return make_system([A, M4, V6, V6B, E0], PATCHES_EDGE, match_attrs=EDGE_MATCH_ATTRS, ips=EDGE_IPS)
 
@@ -437,6 +454,7 @@ def run(only=None):
         runs.append(("all_sequences_depth3_3addr_full", make_system([A, B, C], PATCHES), 3))
     runs.append(("address_spellings_and_field_extremes_depth3", EDGE_SYSTEM(), 4 if rep.thorough() else 3))
     runs.append(("extended_repeater_through_create_repeater_hook", SUBCLASS_SYSTEM(), None if rep.thorough() else 4))
+    runs.append(("mutable_attribute_values_shared_between_records", MUTABLE_VALUES_SYSTEM(), 5 if rep.thorough() else 4))
     for name, cls, depth in runs:
         if only and name not in only:
             continue
@@ -512,6 +530,7 @@ def replay(doc):
             "all_sequences_depth3_3addr_full": make_system([A, B, C], PATCHES),
             "address_spellings_and_field_extremes_depth3": EDGE_SYSTEM(),
             "extended_repeater_through_create_repeater_hook": SUBCLASS_SYSTEM(),
+            "mutable_attribute_values_shared_between_records": MUTABLE_VALUES_SYSTEM(),
         }
         cls = cfgs[name]
         s = cls(c["init"])
